@@ -11,6 +11,7 @@
 #include <fcntl.h>
 #include <sys/mman.h>
 #include <sys/stat.h>
+#include <sys/resource.h>
 #include <clocale>
 #include <cstdarg>
 #include <sys/time.h>
@@ -45,6 +46,9 @@ int __real_fstat(int, struct stat *);
 int __real_stat(const char *, struct stat *);
 FILE *__real_fdopen(int, const char *);
 int __real_dup(int);
+void __real__exit(int) __attribute__((noreturn));
+int __real_ftruncate(int, off_t);
+int __real_getrlimit(int, struct rlimit *);
 char *__real_getcwd(char *, size_t);
 mode_t __real_umask(mode_t);
 int __real_gettimeofday(struct timeval *, void *);
@@ -120,6 +124,17 @@ NOINSTR void snapshot_stack(void **dst, int n) {
 	for (int i = 0; i < n; i++) {
 		int d = (int)S.depth - 1 - i;
 		dst[i] = d >= 0 && d < MAXD ? S.shadow[d] : nullptr;
+	}
+}
+
+// the same bytes under another path: absolute, in another directory, or with another base name
+NOINSTR std::string alt_name(const Plan &p, const std::string &name) {
+	switch (p.alt_name) {
+	case 1: return "/home/user/project/" + name;
+	case 2: return "./" + name;
+	case 3: return "../elsewhere/" + name.substr(name.rfind('/') == std::string::npos ? 0 : name.rfind('/') + 1);
+	case 4: return "t" + std::to_string((p.alloc_seed ^ hash_str(name)) % 100000) + ".c";
+	default: return name;
 	}
 }
 
@@ -551,7 +566,7 @@ NOINSTR FILE *__wrap_fopen(const char *path, const char *mode) {
 		return f;
 	}
 	for (size_t i = 0; i < S.plan->files.size(); i++)
-		if (S.plan->files[i].name == path) {
+		if (alt_name(*S.plan, S.plan->files[i].name) == path) {
 			S.in_sut = false;
 			FILE *f = make_in((int)i, true);
 			S.in_sut = true;
@@ -682,7 +697,7 @@ NOINSTR int __wrap_open(const char *path, int flags, ...) {
 		long k = S.res.nfopen++;
 		if (const FaultB *f = find_fault("fopen", k)) { fired(F_FOPEN); errno = f->err ? f->err : ENOENT; return -1; }
 		for (size_t i = 0; i < S.plan->files.size(); i++)
-			if (S.plan->files[i].name == path) {
+			if (alt_name(*S.plan, S.plan->files[i].name) == path) {
 				InStream *in = new InStream{(int)i, 0};
 				S.ins.push_back(in);
 				int fd = 300 + (int)S.fds.size();
@@ -741,7 +756,7 @@ NOINSTR int __wrap_fstat(int fd, struct stat *st) {
 NOINSTR int __wrap_stat(const char *path, struct stat *st) {
 	if (!S.in_sut) return __real_stat(path, st);
 	memset(st, 0, sizeof *st);
-	for (auto &f : S.plan->files) if (f.name == path) { st->st_mode = S_IFREG | 0644; st->st_size = (off_t)f.data.size(); return 0; }
+	for (auto &f : S.plan->files) if (alt_name(*S.plan, f.name) == path) { st->st_mode = S_IFREG | 0644; st->st_size = (off_t)f.data.size(); return 0; }
 	auto it = S.outfiles.find(path);
 	if (it != S.outfiles.end()) { st->st_mode = S_IFREG | 0644; st->st_size = (off_t)it->second.size(); return 0; }
 	errno = ENOENT;
@@ -765,6 +780,42 @@ NOINSTR FILE *__wrap_fdopen(int fd, const char *mode) {
 	S.in_sut = true;
 	return f;
 }
+#ifndef SIMB_SANITIZED  /* the sanitizer runtime, linked into this executable, calls this itself */
+NOINSTR void __wrap__exit(int status) {
+	if (!S.in_sut) __real__exit(status);
+	// _exit: no atexit handlers, no flushing of stdio buffers
+	ev(0x58, (uint64_t)status);
+	finish(K_EXIT, status & 0xff);
+}
+#endif
+NOINSTR int __wrap_ftruncate(int fd, off_t len) {
+	if (!S.in_sut) return __real_ftruncate(fd, len);
+	FdEnt *e = fd_by_fd(fd);
+	if (!e || !e->out) { errno = EBADF; return -1; }
+	if (e->out->which == 0) {
+		// standard output: a regular file can be truncated, a pipe or terminal cannot - the environment decides
+		fired(F_TRIPWIRE);
+		if (S.triprng.next() % 2) { errno = EINVAL; return -1; }
+		S.sink[0].resize((size_t)len < S.sink[0].size() ? (size_t)len : S.sink[0].size());
+		return 0;
+	}
+	std::string &d = S.outfiles[e->out->path];
+	if ((size_t)len < d.size()) d.resize((size_t)len);
+	else d.append((size_t)len - d.size(), '\0');
+	return 0;
+}
+#ifndef SIMB_SANITIZED  /* the sanitizer runtime, linked into this executable, calls this itself */
+NOINSTR int __wrap_getrlimit(int res, struct rlimit *rl) {
+	if (!S.in_sut) return __real_getrlimit(res, rl);
+	fired(F_TRIPWIRE);
+	static const rlim_t vals[] = {1 << 20, 4 << 20, 8 << 20, 64 << 20, RLIM_INFINITY};
+	rl->rlim_cur = vals[S.triprng.next() % 5];
+	rl->rlim_max = RLIM_INFINITY;
+	(void)res;
+	return 0;
+}
+#endif
+
 NOINSTR int __wrap_dup(int fd) {
 	if (!S.in_sut) return __real_dup(fd);
 	FdEnt *e = fd_by_fd(fd);
@@ -811,6 +862,7 @@ NOINSTR uid_t __wrap_getuid(void) { if (S.in_sut) { fired(F_TRIPWIRE); return (u
 NOINSTR pid_t __wrap_getppid(void) { if (S.in_sut) { fired(F_TRIPWIRE); return (pid_t)(2 + S.triprng.next() % 30000); } return __real_getppid(); }
 NOINSTR void __wrap_srand(unsigned s) { (void)s; if (S.in_sut) fired(F_TRIPWIRE); }
 NOINSTR void __wrap_srandom(unsigned s) { (void)s; if (S.in_sut) fired(F_TRIPWIRE); }
+#ifndef SIMB_SANITIZED  /* the sanitizer runtime, linked into this executable, calls this itself */
 NOINSTR long __wrap_sysconf(int name) {
 	if (!S.in_sut) return __real_sysconf(name);
 	fired(F_TRIPWIRE);
@@ -818,6 +870,7 @@ NOINSTR long __wrap_sysconf(int name) {
 	if (name == _SC_OPEN_MAX) { static const long om[] = {256, 1024, 1048576}; return om[S.triprng.next() % 3]; }
 	return __real_sysconf(name);
 }
+#endif
 
 // tripwires: cproc-qbe does not call these today.  If a change introduces a
 // call, it gets seeded, varying values, so that any dependence of the output
@@ -952,13 +1005,14 @@ NOINSTR static void child_run(const Plan &p, int resfd, bool want_sink, bool wan
 	signal(SIGPIPE, SIG_IGN);
 
 	// command line
+	static const char *argv0s[] = {"cproc-qbe", "/usr/local/bin/cproc-qbe", "./cproc-qbe", "x86_64-cproc-qbe", "aarch64-linux-musl-cproc-qbe", "riscv64-cproc-qbe", "cc1"};
 	std::vector<std::string> args;
-	args.push_back("cproc-qbe");
+	args.push_back(argv0s[(unsigned)p.argv0 % 7]);
 	if (p.target > 0) { args.push_back("-t"); args.push_back(TARGETS[p.target]); }
 	if (p.pponly) args.push_back("-E");
 	if (p.dash_o) { args.push_back("-o"); args.push_back("/sim/out"); }
 	bool use_stdin = p.via_stdin && p.files.size() == 1;
-	if (!use_stdin) for (auto &f : p.files) args.push_back(f.name);
+	if (!use_stdin) for (auto &f : p.files) args.push_back(alt_name(p, f.name));
 	std::vector<char *> av;
 	for (auto &a : args) av.push_back(&a[0]);
 	av.push_back(nullptr);
